@@ -327,3 +327,39 @@ fn check_dir(dir: &Path, gens: &[Gen]) -> Out {
     labels.dedup();
     Out { violations: viol, nontrivial, labels, sample: json!({"files": gens.iter().map(|g| g.text.clone()).collect::<Vec<_>>(), "results": summary}), harness_error: herr }
 }
+
+
+/// C16 oracle over arbitrary text (raw-bytes fuzz target): if the `gherkin` crate parses it, the
+/// crate's expansion must equal the reference expansion, or fail with an unknown placeholder.
+pub fn check_text(text: &str) -> Vec<Violation> {
+    use cucumber::feature::Ext as _;
+    let Ok(parsed) = gherkin::Feature::parse(text, gherkin::GherkinEnv::default()) else { return vec![] };
+    let exp = reference(&parsed);
+    let got = std::panic::catch_unwind(std::panic::AssertUnwindSafe(|| parsed.clone().expand_examples()));
+    let mut viol = vec![];
+    let strip = |f: &gherkin::Feature| {
+        let mut f = f.clone();
+        for s in f.scenarios.iter_mut().chain(f.rules.iter_mut().flat_map(|r| r.scenarios.iter_mut())) {
+            if !s.examples.is_empty() {
+                s.position = gherkin::LineCol::default();
+            }
+        }
+        f
+    };
+    match (exp, got) {
+        (_, Err(_)) => viol.push(v("raw/panic", format!("expand_examples panicked on:\n{text}"))),
+        (Ok(e), Ok(Ok(g))) => {
+            if strip(&e) != strip(&g) {
+                viol.push(v("raw/substitution", format!("expansion differs from the reference on:\n{text}")));
+            }
+        }
+        (Err(unk), Ok(Err(err))) => {
+            if !unk.contains(&err.name) {
+                viol.push(v("raw/error-names-wrong-placeholder", format!("error names `{}`, unknown placeholders {unk:?} in:\n{text}", err.name)));
+            }
+        }
+        (Ok(_), Ok(Err(err))) => viol.push(v("raw/unexpected-error", format!("unexpected error {err} on:\n{text}"))),
+        (Err(unk), Ok(Ok(_))) => viol.push(v("raw/missing-error", format!("unknown placeholders {unk:?} but expansion succeeded on:\n{text}"))),
+    }
+    viol
+}
